@@ -74,6 +74,10 @@ func checkC01(c *Ctx, r *Report) {
 		}
 	}
 	r.floor("R1.5", 10)
+	// R1.6: what an encoder emits is a function of the request alone (no package-level state on
+	// the path: a lazily built table, a reused scratch buffer)
+	sharedStateRule(c, r, "R1.6", "packet request encoders", "request construction and encoding", append(codecRoots(c, "packet", true), crc))
+	r.floor("R1.6", 40)
 	// R1.4 coil packing
 	pack := c.fnMust("packet", "CoilsToBytes")
 	r.instance("R1.4", 1)
